@@ -36,7 +36,8 @@ def required_counters(tier):
             'lane:CircleSkyRegion': 10, 'lane:EllipseSkyRegion': 10, 'lane:RectangleSkyRegion': 10, 'lane:CircleAnnulusSkyRegion': 10,
             'lane:EllipseAnnulusSkyRegion': 10, 'lane:RectangleAnnulusSkyRegion': 10, 'region-in-other-frame': 30,
             'centre-exactly-on-equator': 20, 'annulus-hole-with-equal-axes': 20, 'centre-exactly-at-crval': 20, 'centre-with-distance': 20,
-            'judged:length-vs-local-scale': 300, 'wcs-given-as-sliced-cube-plane': 20}
+            'judged:length-vs-local-scale': 300, 'wcs-given-as-sliced-cube-plane': 20,
+            'centre-within-an-arcsecond-of-its-frames-pole': 10}
 
 
 CLASSES = ['CircleSkyRegion', 'EllipseSkyRegion', 'RectangleSkyRegion', 'CircleAnnulusSkyRegion', 'EllipseAnnulusSkyRegion',
@@ -53,6 +54,13 @@ def generate(rng, tier, shard, nshards):
             w = gen.wcs_spec(rng, conformal=True, scale=sc, crval=(rng.choice([rng.uniform(0, 360), 0.0, 1e-3]), rng.uniform(-100, 100) * sc))
         else:
             w = gen.wcs_spec(rng, conformal=True)
+        near_pole = None
+        if not equator and rng.random() < 0.04:
+            # a region given in Galactic coordinates within an arcsecond of the north Galactic pole, on an equatorial image of that field
+            # (its own frame's north is a few tenths of an arcsecond away: offsets "towards north" walk over the pole)
+            w = gen.wcs_spec(rng, conformal=True, frame=rng.choice(['icrs', 'fk5']), crval=(192.85948 + rng.uniform(-1, 1) * 50 * w['scale'],
+                                                                                           27.12825 + rng.uniform(-1, 1) * 50 * w['scale']), scale=w['scale'])
+            near_pole = {'l': rng.uniform(0, 360), 'delta_arcsec': rng.uniform(0.15, 0.9), 'south': False}
         cls = rng.choice(CLASSES)
         ang = rng.choice([0, 90, 180, 270]) + rng.choice([-1, 1]) * rng.uniform(5, 85) + 360 * rng.randint(-2, 2)
         if rng.random() < 0.15:
@@ -67,7 +75,7 @@ def generate(rng, tier, shard, nshards):
                'size_unit2': rng.choice(['arcsec', 'arcmin', 'deg', 'mas']),
                'other_frame': (rng.choice([f for f in ('icrs', 'galactic', 'fk5', 'fk4') if f != w['frame']])
                                if rng.random() < 0.35 and not equator else None),
-               'equator': equator,
+               'equator': equator, 'near_pole': near_pole,
                'rs': rng.randrange(2 ** 31)}
 
 
@@ -97,6 +105,10 @@ def run_case(case, obs):
         lon = 0.0 * u.deg if (abs(centre.spherical.lon.wrap_at(180 * u.deg).deg) < 1.0 and case['rs'] % 2) else centre.spherical.lon
         centre = SkyCoord(lon, 0.0 * u.deg, frame=centre.frame)
         obs.count('centre-exactly-on-equator')
+    if case.get('near_pole'):
+        npole = case['near_pole']
+        centre = SkyCoord(npole['l'] * u.deg, (90.0 - npole['delta_arcsec'] / 3600.0) * u.deg, frame='galactic')
+        obs.count('centre-within-an-arcsecond-of-its-frames-pole')
     ref = w.pixel_to_world(w.wcs.crpix[0] - 1, w.wcs.crpix[1] - 1)
     major = case['a_px'] * scale * u.deg
     minor = major / case['ratio']
@@ -152,6 +164,12 @@ def run_case(case, obs):
     # the farthest probe from the reference point sets the tolerance
     rho = float(ref.separation(centre).rad) + float(max(width, height).to_value(u.rad))
     tol = 1e-5 + 3.0 * rho * rho
+    # a one-arcsecond step taken in longitude / latitude arithmetic loses digits next to a pole of the region's frame (astropy's
+    # offset formulae divide by cos(latitude)): rounding of eps / cos(lat) radians against a step of 4.85e-6 rad
+    # (the same holds for the oracle's own probes at the semi-axes, which can be much shorter than an arcsecond)
+    step = min([4.85e-6] + [float(min(sa_, sb_).to_value(u.rad)) for _l, sa_, sb_ in shells])
+    polar = 16 * 2.2e-16 / (max(math.cos(float(centre.spherical.lat.rad)), 1e-12) * step)
+    tol += polar
     obs.note_max('max:tolerance', tol)
     circular = name.startswith('Circle')
     th = None if circular else float(pix.angle.to_value(u.rad))
@@ -168,7 +186,7 @@ def run_case(case, obs):
 
     def local(nm, got, ang_size):
         k = got / float(ang_size.to_value(u.arcsec))
-        obs.check(kmin * (1 - 2e-6) <= k <= kmax * (1 + 2e-6), 'length-not-angular-size-over-local-scale',
+        obs.check(kmin * (1 - 2e-6 - polar) <= k <= kmax * (1 + 2e-6 + polar), 'length-not-angular-size-over-local-scale',
                   f'{name} {nm}: pixel length {got!r} for {ang_size} is {k!r} px/arcsec; the pixel scale at the centre is between {kmin!r} and {kmax!r} px/arcsec '
                   f'({math.degrees(rho):.3g} deg from the reference point)', 'length-vs-local-scale')
     for label, sa, sb in shells:
